@@ -749,7 +749,7 @@ def oracle_cfg(run, deep, cfg):
                 report_law(run, n, (a,), r, cfg)
     for a, b in itertools.product(vals, vals):
         pair(a, b)
-    scal = [v for v in corpus_values(True, special=True) if kind(v) not in ("list", "tuple") and v == v]
+    scal = [v for v in corpus_values(True, special=True) if kind(v) not in ("list", "tuple", "set", "dict") and v == v]
     scal += random_scalars(run.rng, run.n(40, 400))
     ntri = 20000 if deep and run.quick else run.n(3000, 150000)
     if cfg != "CDefault":
@@ -776,7 +776,7 @@ def gen_cases(run):
     for _, sp in BINARY:
         for a, b in itertools.product(vals, vals):
             cases.append({"ops": [sp], "vals": [a, b]})
-    scal = [v for v in corpus_values(True, special=True) if kind(v) not in ("list", "tuple")]
+    scal = [v for v in corpus_values(True, special=True) if kind(v) not in ("list", "tuple", "set", "dict")]
     scal += random_scalars(run.rng, run.n(40, 400))
     bsp = [s for _, s in BINARY]
     for _ in range(run.n(1500, 100000)):
